@@ -25,6 +25,17 @@ pub enum Op {
     Phase,
     /// search expression `e` of the CURRENT generation (see `Phase`)
     SearchGen { e: usize, d: usize },
+    /// hand-off, giving side: search and leave the RESULT VALUE (which may alias the shared
+    /// document) in slot `slot` for another thread
+    GiveVal { slot: usize, e: usize, d: usize },
+    /// hand-off, taking side: wait for the value of `slot` (produced elsewhere as `pe` over
+    /// `pd`), search it with `e`, render it, and drop it HERE -- possibly its last reference
+    TakeVal { slot: usize, e: usize, pe: usize, pd: usize },
+    /// compile on this thread and leave the EXPRESSION in `slot` for another thread
+    GiveExpr { slot: usize, text: String, custom: bool },
+    /// wait for the expression of `slot`, search `d` with it and with a clone of it, and
+    /// drop both here (the compiling thread may be gone by then)
+    TakeExpr { slot: usize, d: usize, text: String, custom: bool },
 }
 
 #[derive(Clone, Debug)]
@@ -52,6 +63,10 @@ fn op_json(o: &Op) -> Value {
         Op::WaitFor { t, n } => json!({"k":"wait_for","t":t,"n":n}),
         Op::Phase => json!({"k":"phase"}),
         Op::SearchGen { e, d } => json!({"k":"search_gen","e":e,"d":d}),
+        Op::GiveVal { slot, e, d } => json!({"k":"give_val","slot":slot,"e":e,"d":d}),
+        Op::TakeVal { slot, e, pe, pd } => json!({"k":"take_val","slot":slot,"e":e,"pe":pe,"pd":pd}),
+        Op::GiveExpr { slot, text, custom } => json!({"k":"give_expr","slot":slot,"text":text,"custom":custom}),
+        Op::TakeExpr { slot, d, text, custom } => json!({"k":"take_expr","slot":slot,"d":d,"text":text,"custom":custom}),
     }
 }
 
@@ -92,6 +107,10 @@ pub fn from_json(v: &Value) -> Scenario {
                                         "wait_for" => Op::WaitFor { t: us(o, "t"), n: us(o, "n") },
                                         "phase" => Op::Phase,
                                         "search_gen" => Op::SearchGen { e: us(o, "e"), d: us(o, "d") },
+                                        "give_val" => Op::GiveVal { slot: us(o, "slot"), e: us(o, "e"), d: us(o, "d") },
+                                        "take_val" => Op::TakeVal { slot: us(o, "slot"), e: us(o, "e"), pe: us(o, "pe"), pd: us(o, "pd") },
+                                        "give_expr" => Op::GiveExpr { slot: us(o, "slot"), text: st(o, "text"), custom: o["custom"].as_bool().unwrap_or(false) },
+                                        "take_expr" => Op::TakeExpr { slot: us(o, "slot"), d: us(o, "d"), text: st(o, "text"), custom: o["custom"].as_bool().unwrap_or(false) },
                                         _ => Op::ToString { e: us(o, "e"), d: us(o, "d") },
                                     })
                                     .collect()
@@ -256,6 +275,63 @@ fn generate_roles(r: &mut Rng, class: &str) -> Scenario {
         }
         return Scenario { docs, pre, touch_default_first: true, threads, main_runs: true, gens };
     }
+    if class == "handoff" {
+        // Values and compiled expressions cross thread boundaries: thread t gives to thread
+        // t+1 (mod n). Every thread gives everything it has to give BEFORE its first take, so
+        // no cycle of waits exists. Results alias the shared documents (identity, members,
+        // slices), are searched again by the taker and dropped there.
+        let pre: Vec<(bool, String)> = [
+            "@",
+            "xs",
+            "xs[?id > `0`]",
+            "sort_by(xs, &id)",
+            "{k: xs[0], l: a, m: s}",
+            "[a, xs[*].id, s]",
+            "length(@)",
+            "xs[*].id",
+            "keys(@)",
+            "to_string(@)",
+            "max_by(xs, &id)",
+            "not_null(a, xs)",
+        ]
+        .iter()
+        .map(|t| (true, t.to_string()))
+        .collect();
+        let producers = 6; // indices 0..6 of `pre` make the values, any index consumes them
+        let texts = ["sort_by(xs, &id)[*].id", "map(&abs(@), a)", "xs[?id >", "join('-', [s, s])", "max_by(xs, &id).id", "length(@)"];
+        let n = 3 + r.below(2);
+        let per = 3 + r.below(2);
+        let mut gives: Vec<Vec<Op>> = vec![vec![]; n];
+        let mut takes: Vec<Vec<Op>> = vec![vec![]; n];
+        let mut slot = 0;
+        for t in 0..n {
+            let to = (t + 1 + r.below(n - 1)) % n;
+            for i in 0..per {
+                if r.chance(2, 3) {
+                    let (e, d) = (r.below(producers), r.below(docs.len()));
+                    gives[t].push(Op::GiveVal { slot, e, d });
+                    takes[to].push(Op::TakeVal { slot, e: r.below(pre.len()), pe: e, pd: d });
+                } else {
+                    let text = texts[(t + i + r.below(2)) % texts.len()].to_string();
+                    let custom = r.chance(1, 2);
+                    gives[t].push(Op::GiveExpr { slot, text: text.clone(), custom });
+                    takes[to].push(Op::TakeExpr { slot, d: r.below(docs.len()), text, custom });
+                }
+                slot += 1;
+            }
+        }
+        for t in 0..n {
+            let mut ops = std::mem::take(&mut gives[t]);
+            // something of its own between giving and taking, so that givers finish (and
+            // some exit) at different moments
+            for _ in 0..r.below(3) {
+                ops.push(Op::Search { e: r.below(pre.len()), d: r.below(docs.len()), form: r.below(3) as u8 });
+            }
+            ops.extend(std::mem::take(&mut takes[t]));
+            threads.push(ops);
+        }
+        return Scenario { docs, pre, touch_default_first: r.chance(1, 2), threads, main_runs: r.chance(1, 3), gens: vec![] };
+    }
     // badpool
     let long = (0..10).map(|i| format!("\"member-{:03}\"", i)).collect::<Vec<_>>().join(", ");
     let texts = vec![
@@ -315,7 +391,7 @@ pub fn generate(seed: u64, class: &str) -> Scenario {
     // machine has 8 CPUs) must still come back in order.
     let bigproj = class == "bigproj";
     let mut r = Rng::new(seed);
-    if class == "owner" || class == "rounds" || class == "badpool" {
+    if class == "owner" || class == "rounds" || class == "badpool" || class == "handoff" {
         return generate_roles(&mut r, class);
     }
     let (main_runs, gens) = (false, vec![]);
@@ -579,6 +655,49 @@ struct Shared {
     /// number of rendezvous every thread takes part in
     nphases: usize,
     barrier: std::sync::Barrier,
+    /// hand-off slots (`GiveVal` / `TakeVal` / `GiveExpr` / `TakeExpr`): one giver and one
+    /// taker each; the taker blocks on the condition variable in `threads` mode
+    slots: Vec<(std::sync::Mutex<Option<Item>>, std::sync::Condvar)>,
+}
+
+enum Item {
+    Val(Rcvar),
+    Expr(Option<Expression<'static>>),
+}
+
+fn compile_on(sh: &Shared, text: &str, custom: bool) -> Option<Expression<'static>> {
+    if custom {
+        sh.custom.compile(text).ok()
+    } else {
+        jmespath::compile(text).ok()
+    }
+}
+
+fn produce_val(sh: &Shared, e: usize, d: usize) -> Rcvar {
+    match &sh.exprs[e % sh.exprs.len()] {
+        Some(ex) => ex.search(&sh.docs[d % sh.docs.len()]).unwrap_or_else(|_| Rcvar::new(Variable::Null)),
+        None => Rcvar::new(Variable::Null),
+    }
+}
+
+fn give(sh: &Shared, slot: usize, it: Item) {
+    let (m, cv) = &sh.slots[slot % sh.slots.len()];
+    *m.lock().unwrap() = Some(it);
+    cv.notify_all();
+}
+
+/// In `threads` mode (progress counters present) the taker waits for the giver; in the
+/// sequential modes an empty slot means the giver has not run yet, and `None` makes the
+/// taker produce the item itself -- same item, so the rendering is the same in every mode.
+fn take(sh: &Shared, slot: usize) -> Option<Item> {
+    let (m, cv) = &sh.slots[slot % sh.slots.len()];
+    let mut g = m.lock().unwrap();
+    if sh.progress.is_some() {
+        while g.is_none() {
+            g = cv.wait(g).unwrap();
+        }
+    }
+    g.take()
 }
 
 /// What one thread carries from operation to operation.
@@ -676,6 +795,47 @@ fn render(r: Result<Rcvar, JmespathError>) -> String {
 fn run_op(sh: &Shared, op: &Op) -> String {
     match op {
         Op::Phase | Op::SearchGen { .. } => "skipped".into(),
+        Op::GiveVal { slot, e, d } => {
+            let v = produce_val(sh, *e, *d);
+            let r = format!("Gave({:?})", v);
+            give(sh, *slot, Item::Val(v));
+            r
+        }
+        Op::TakeVal { slot, e, pe, pd } => {
+            let v = match take(sh, *slot) {
+                Some(Item::Val(v)) => v,
+                _ => produce_val(sh, *pe, *pd),
+            };
+            let r = match &sh.exprs[*e % sh.exprs.len()] {
+                Some(ex) => format!("Took({}; {})", render(ex.search(&v)), v),
+                None => format!("Took({})", v),
+            };
+            drop(v);
+            r
+        }
+        Op::GiveExpr { slot, text, custom } => {
+            let ex = compile_on(sh, text, *custom);
+            let r = format!("GaveExpr({})", ex.is_some());
+            give(sh, *slot, Item::Expr(ex));
+            r
+        }
+        Op::TakeExpr { slot, d, text, custom } => {
+            let ex = match take(sh, *slot) {
+                Some(Item::Expr(ex)) => ex,
+                _ => compile_on(sh, text, *custom),
+            };
+            match ex {
+                None => "TookExpr(none)".into(),
+                Some(ex) => {
+                    let doc = &sh.docs[*d % sh.docs.len()];
+                    let a = render(ex.search(doc));
+                    let c = ex.clone();
+                    drop(ex);
+                    let b = render(c.search(doc.clone()));
+                    format!("TookExpr({} / {})", a, b)
+                }
+            }
+        }
         Op::WaitFor { t, n } => {
             if let Some(p) = sh.progress.as_ref() {
                 // a wait on an impossible target would never end: ignore it
@@ -759,6 +919,17 @@ fn build_shared(s: &Scenario) -> Shared {
         .min()
         .unwrap_or(0)
         .min(s.gens.len());
+    let nslots = s
+        .threads
+        .iter()
+        .flatten()
+        .map(|o| match o {
+            Op::GiveVal { slot, .. } | Op::TakeVal { slot, .. } | Op::GiveExpr { slot, .. } | Op::TakeExpr { slot, .. } => slot + 1,
+            _ => 0,
+        })
+        .max()
+        .unwrap_or(0)
+        .max(1);
     let mut sh = Shared {
         docs,
         exprs,
@@ -768,6 +939,7 @@ fn build_shared(s: &Scenario) -> Shared {
         gen_texts,
         nphases,
         barrier: std::sync::Barrier::new(s.threads.len().max(1)),
+        slots: (0..nslots).map(|_| (std::sync::Mutex::new(None), std::sync::Condvar::new())).collect(),
     };
     if uses_gens {
         let g0 = compile_gen(&sh, &sh.gen_texts[0]);
@@ -801,8 +973,8 @@ pub fn main() {
             let a = exec(&sc, "seq", false).0;
             let b = exec(&sc, "serial", false).0;
             println!("B {} {:016x} {:016x}", i, a, b);
-            // role classes (which thread compiles, searches, drops): numbered from 1 000 000 / 2 000 000
-            for (base, cls, when) in [(1_000_000u64, "rounds", 3u64), (2_000_000u64, "owner", 5u64)] {
+            // role classes (which thread compiles, searches, drops): numbered from 1 000 000 / 2 000 000 / 3 000 000
+            for (base, cls, when) in [(1_000_000u64, "rounds", 3u64), (2_000_000u64, "owner", 5u64), (3_000_000u64, "handoff", 7u64)] {
                 if i % 8 == when {
                     let sc = generate(mix(seed, i), cls);
                     let a = exec(&sc, "seq", false).0;
